@@ -6,10 +6,15 @@ Exit codes of a check: 0 = held on everything explored (KNOWN-FINDING lines allo
 import json, os, re, subprocess, sys, time, shutil, hashlib
 
 VERIF = os.path.dirname(os.path.dirname(os.path.abspath(__file__)))
-HARNESS = os.path.join(VERIF, "harness")
+# The registered commands never set these variables: they exist so that tools/seed_iso.sh can run a
+# check against a scratch copy of the harness (path deps rewritten to a patched scratch copy of
+# /repo) without disturbing /repo, /verif/evidence or the shared cargo target directory.
+HARNESS = os.environ.get("VERIF_HARNESS_DIR") or os.path.join(VERIF, "harness")
 SPECS = os.path.join(VERIF, "specs")
-WORK = os.path.join(VERIF, "work")
-EVID = os.path.join(VERIF, "evidence")
+WORK = os.environ.get("VERIF_WORK_DIR") or os.path.join(VERIF, "work")
+EVID = os.environ.get("VERIF_EVIDENCE_DIR") or os.path.join(VERIF, "evidence")
+REPO = os.environ.get("VERIF_REPO_DIR") or "/repo"      # source tree read by static extractions
+REPLAYS = os.environ.get("VERIF_REPLAYS_DIR") or os.path.join(VERIF, "replays")
 TLA_JAR = "/opt/veriftools/tla/tla2tools.jar"
 NCPU = os.cpu_count() or 8
 
@@ -298,8 +303,8 @@ class Ctx:
             self.known_hits[k["id"]] = self.known_hits.get(k["id"], 0) + 1
             return False
         n = len(self.violations) + 1
-        os.makedirs(os.path.join(VERIF, "replays", self.pid), exist_ok=True)
-        p = os.path.join(VERIF, "replays", self.pid, "violation-%d.json" % n)
+        os.makedirs(os.path.join(REPLAYS, self.pid), exist_ok=True)
+        p = os.path.join(REPLAYS, self.pid, "violation-%d.json" % n)
         with open(p, "w") as f:
             json.dump({"property": self.pid, "violation": viol, "replay": replay_obj, "seed": self.seed,
                        "tier": self.tier}, f, indent=1)
